@@ -75,6 +75,18 @@ def make_options(opt, extra):
     return o, dict(idtitles=idtitles, custom_sub=custom_sub, urf=urf, id_attr=id_attr, class_attr=class_attr, peers=peers)
 
 
+def DEFAULT_TABLE():
+    """The documented defaults (docs/usage + the statement): vertices are objects titled by their id(), directed
+    edges are drawn `-->`, undirected ones `--`.  Written down here independently of the library's table."""
+    from edgegraph.structure import DirectedEdge, UnDirectedEdge, Vertex
+
+    return {
+        Vertex: {"type": "object", "title_format": "$id"},
+        DirectedEdge: {"v1side": "", "v2side": ">"},
+        UnDirectedEdge: {"v1side": "", "v2side": ""},
+    }
+
+
 def nearest(cls, options):
     for c in cls.__mro__:
         if c in options:
@@ -128,6 +140,7 @@ def _check_render(case, vs, ls, u, opt, keep):
     from edgegraph.output import plantuml
 
     options, flags = make_options(opt, case["extra"])
+    keep_in = dict(keep)
     if flags.get("id_attr"):
         for v in vs:
             v.id = "x%d" % v.i      # user data that happens to be called `id`
@@ -144,6 +157,19 @@ def _check_render(case, vs, ls, u, opt, keep):
         options[Vertex]["user_render_func"] = lambda v, opts: f"object U{v.i} <<Custom>> {{\n}}\n"
     # the expectation is computed from an independent copy of the table (the library compiles show_attrs in place)
     ref_options, _ = make_options(opt, case["extra"])
+    if opt & 512 and "options" not in keep_in and not flags["urf"]:
+        # the library's OWN default table (the statement: "by default --> for directed and -- for undirected
+        # edges"); it has entries for Vertex, DirectedEdge and UnDirectedEdge only, so only for worlds whose links
+        # are all of those families
+        from edgegraph.structure import DirectedEdge, UnDirectedEdge
+
+        if all(isinstance(l, (DirectedEdge, UnDirectedEdge)) for l in ls):
+            import copy
+
+            options = copy.deepcopy(plantuml.PLANTUML_RENDER_OPTIONS)
+            ref_options = {k: (dict(v) if isinstance(v, dict) else v) for k, v in DEFAULT_TABLE().items()}
+            flags = dict(idtitles=True, custom_sub=False, urf=False, id_attr=False, class_attr=False, peers=False, default_table=True)
+            keep.pop("options", None)
     try:
         src = plantuml.render_to_plantuml_src(u, options)
     except Exception as e:  # noqa
@@ -219,6 +245,8 @@ def _check_render(case, vs, ls, u, opt, keep):
         classes.append("subclass-entries")
     if flags["urf"]:
         classes.append("user_render_func")
+    if flags.get("default_table"):
+        classes.append("library-default-option-table")
     if flags["class_attr"]:
         classes.append("title-from-class-level-attribute")
     if flags["peers"]:
